@@ -14,12 +14,14 @@ package c17
 import (
 	"context"
 	"fmt"
+	"reflect"
 	"runtime"
 	"testing"
 	"testing/synctest"
 	"time"
 
 	"github.com/jech/storrent/alloc"
+	"github.com/jech/storrent/peer"
 	"github.com/jech/storrent/tor"
 	"verifharness/fixture"
 	"verifharness/refwire"
@@ -114,38 +116,73 @@ func readerCancelledWhileQueued(t *testing.T, c *vk.C, variant int) {
 func stalledPeerAtDeletion(t *testing.T, c *vk.C, variant int) {
 	swarm.Run(t, c, "C17", func(sw *swarm.Swarm) {
 		base := alloc.Bytes()
-		np := 200 + 40*(variant%3)
-		g := &fixture.Geo{Name: "sp", PieceLen: 16 << 10, Length: int64(np)*(16<<10) - 5, Seed: uint64(200 + variant)}
+		np := 90
+		g := &fixture.Geo{Name: "sp", PieceLen: 32 << 10, Length: int64(np)*(32<<10) - 5, Seed: uint64(200 + variant)}
 		tr := sw.AddTorrent(g, swarm.TorOpts{})
-		// the peer that will stall: it looks like a seed that has unchoked us and is interested itself, so the request
-		// scheduler and the unchoker both keep asking its actor for its status
-		st := tr.Connect(swarm.RemoteOpts{Fast: variant%2 == 0, Ext: variant%4 < 2})
-		st.AutoSeed(swarm.SeedMode{Silent: true})
-		st.Send(refwire.Msg{Kind: refwire.KInterested})
+		// the peer that will stall: no extension protocol (pieces storrent loses are not announced to it), it has
+		// nothing yet, it has unchoked us
+		st := tr.Connect(swarm.RemoteOpts{Fast: variant%2 == 0, Ext: false})
+		st.Send(refwire.Msg{Kind: refwire.KBitfield, Data: make([]byte, (np+7)/8)})
+		st.Send(refwire.Msg{Kind: refwire.KUnchoke})
 		other := tr.Connect(swarm.RemoteOpts{Fast: true})
 		other.AutoSeed(swarm.SeedMode{Silent: true})
 		sw.Cut()
-		// somebody wants the end of the torrent: the request ticker runs
-		for p := np - 8; p < np; p++ {
-			tr.T.Request(uint32(p), 1, true, false)
-		}
+		// somebody wants the end of the torrent: storrent is interested in whoever has something
+		tr.T.Request(uint32(np-1), 1, true, false)
 		sw.Cut()
-		st.PauseReading(40 * time.Second)
+		peers, err := tr.T.GetPeers()
+		if err != nil || len(peers) != 2 {
+			c.Inconclusive("GetPeers")
+			return
+		}
+		var sp *peer.Peer
+		for _, p := range peers {
+			if p.GetAddr() == st.Addr {
+				sp = p
+			}
+		}
+		if sp == nil {
+			c.Inconclusive("the stalling peer's actor was not found")
+			return
+		}
+		wr := reflect.ValueOf(sp).Elem().FieldByName("writer")
+		if !wr.IsValid() || wr.Kind() != reflect.Chan {
+			c.Inconclusive("reflect: Peer.writer missing")
+			return
+		}
+		st.PauseReading(90 * time.Second)
 		time.Sleep(300 * time.Millisecond)
-		// pieces complete one after the other (announced to every peer): far more messages than the writer's queue holds
-		var ps []int
-		for p := 0; p < np-16; p++ {
-			ps = append(ps, p)
-		}
-		tr.Prefill(ps)
-		for _, p := range ps {
+		// pieces complete one after the other and are announced to every peer, until the writer's queue to the
+		// stalled peer is exactly full (one more announcement would fail and cost the peer its connection)
+		filled := 0
+		for p := 0; p < np-10 && wr.Len() < wr.Cap(); p++ {
+			tr.Prefill([]int{p})
 			tr.T.Have(uint32(p), true)
+			synctest.Wait()
+			filled++
 		}
-		sw.Act("%d pieces announced while %s is not reading", len(ps), st.Name)
-		// let the congestion play out for a while: ticks of the request scheduler (and, past 20 s, of the unchoker) fall into it
-		wait := []time.Duration{4 * time.Second, 9 * time.Second, 23 * time.Second}[variant%3]
-		for w := time.Duration(0); w < wait; w += time.Second {
-			time.Sleep(time.Second)
+		if wr.Len() < wr.Cap() {
+			c.Inconclusive(fmt.Sprintf("writer queue %d/%d after %d announcements", wr.Len(), wr.Cap(), filled))
+			return
+		}
+		// the stalled peer can still talk: it announces a piece storrent wants.  storrent cannot tell it "interested"
+		// now (the write waits 200 ms for room and gives up); it tries again on every later occasion.
+		st.Send(refwire.Msg{Kind: refwire.KHave, Index: uint32(np - 1)})
+		time.Sleep(500 * time.Millisecond)
+		synctest.Wait()
+		if sp.GetStats() == nil {
+			c.Inconclusive("the stalled peer was dropped before the scenario began")
+			return
+		}
+		// memory pressure: every complete piece is dropped; each is one event for each peer actor, and one such
+		// occasion.  Right behind them the scheduler asks the peers for their status (a consumer asks for a piece).
+		nev := 0
+		tr.T.Pieces.Expire(0, nil, func(ix uint32) { tr.T.Have(ix, false); nev++ })
+		tr.T.Request(uint32(np-2), 1, true, false)
+		sw.Act("writer queue to %s full (%d announcements); %d pieces dropped at once, then a request", st.Name, filled, nev)
+		wait := []time.Duration{1500 * time.Millisecond, 5 * time.Second, 25 * time.Second}[variant%3]
+		for w := time.Duration(0); w < wait; w += 500 * time.Millisecond {
+			time.Sleep(500 * time.Millisecond)
 			synctest.Wait()
 		}
 		c.Count("stalled_peer_histories", 1)
@@ -163,8 +200,8 @@ func stalledPeerAtDeletion(t *testing.T, c *vk.C, variant int) {
 			sw.Viol("C17", "hang", "hang Kill stalled-peer", fmt.Sprintf("Kill has not returned after %v (virtual) with one peer that had stopped reading", bound))
 			return
 		}
-		// the stalled peer starts reading again at the latest 40 s after it stopped; give it that and some more
-		time.Sleep(2 * time.Minute)
+		// the stalled peer starts reading again at the latest 90 s after it stopped; give it that and some more
+		time.Sleep(3 * time.Minute)
 		synctest.Wait()
 		if tor.Get(tr.T.Hash) != nil {
 			sw.Viol("C17", "deletion", "still-listed", "tor.Get(hash) still finds the torrent after Kill returned")
@@ -175,7 +212,7 @@ func stalledPeerAtDeletion(t *testing.T, c *vk.C, variant int) {
 				if r == st {
 					cls += " stalled-peer"
 				}
-				sw.Viol("C17", "deletion", cls, fmt.Sprintf("%s has not seen its connection closed two virtual minutes after the torrent was deleted", r.Name))
+				sw.Viol("C17", "deletion", cls, fmt.Sprintf("%s has not seen its connection closed three virtual minutes after the torrent was deleted", r.Name))
 			} else {
 				c.Count("connections_seen_closed", 1)
 			}
